@@ -22,6 +22,7 @@ from engine import xp, tt, scope
 from engine.common import setup_paths
 
 PROPERTY = 'C09'
+SECOND_PASS = ('run_explicit',)     # see engine/common._run_shard
 LEVEL = 'model_checking'
 EXHAUSTIVE = True
 ENGINE = 'xp+scope'
